@@ -28,6 +28,10 @@ ROpen(ff, ret) ==
     /\ delivered' = 0 /\ allok' = (ret = 1) /\ matches' = TRUE /\ eos' = FALSE
     /\ closed' = 0 /\ UNCHANGED base
 
+\* The end of the stream is reached when a read returns 0, or when the reader has been given as many bytes as the index
+\* declares (f.declared: a reader that knows the data length asks for exactly that much and then closes - no read of its
+\* ever returns 0, and the close is the library's last chance to refuse)
+Declared == IF "declared" \in DOMAIN f THEN f.declared ELSE 0
 \* ret bytes were returned; eq = they equal the reference content at [delivered, delivered+ret);
 \* bad = some byte of them belongs to a chunk whose stored bytes do not match its checksum
 RRead(n, ret, eq, bad) ==
@@ -38,7 +42,7 @@ RRead(n, ret, eq, bad) ==
     /\ delivered' = IF ret > 0 THEN delivered + ret ELSE delivered
     /\ matches' = (matches /\ (ret > 0 => eq))
     /\ allok' = (allok /\ ret >= 0)
-    /\ eos' = (eos \/ ret = 0)
+    /\ eos' = (eos \/ ret = 0 \/ (Declared > 0 /\ (IF ret > 0 THEN delivered + ret ELSE delivered) >= Declared))
     /\ UNCHANGED <<f, phase, closed, base>>
 
 \* C02: open, every read to the end of the stream and close all succeeded
